@@ -10,6 +10,9 @@ package main
 
 import (
 	"fmt"
+	"go/build/constraint"
+	"go/parser"
+	"go/token"
 	"go/version"
 	"os"
 	"path/filepath"
@@ -70,4 +73,119 @@ func checkNoLanguageDowngrade(p *Prog, r *Report, clause string) {
 		fmt.Sprintf("%d files, none below %s", n, mv),
 		fmt.Sprintf("files compiled with an older language version than the module's %s: %s — in those files a `for` loop has ONE variable shared by all iterations, so `&v` taken in a loop body (pointers collected by a genesis export, the StoreUpgrades handed to the store loader) all alias the last element", mv, strings.Join(low, ", ")))
 	r.Floor("module-files-with-version-info", n, 100)
+
+	// build constraints: a hand-written non-test file that is compiled only under some tag / OS / architecture hides an
+	// alternative the analysis (and the test suite) never sees; a file that is excluded under the default configuration is not
+	// analysed at all. Import-only files (the tools.go convention) carry no code and are exempt.
+	var constrained, ignored []string
+	for _, root := range p.Roots {
+		if !strings.HasPrefix(root.PkgPath, ModPath) {
+			continue
+		}
+		for _, f := range root.Syntax {
+			name := p.Fset.Position(f.Pos()).Filename
+			if strings.HasSuffix(name, "_test.go") || strings.HasSuffix(name, ".pb.go") || strings.HasSuffix(name, ".pb.gw.go") {
+				continue
+			}
+			if tag := fileNameConstraint(name); tag != "" {
+				rn := name
+				if rel, err := filepath.Rel(p.RepoDir, name); err == nil {
+					rn = rel
+				}
+				constrained = append(constrained, rn+" (file name implies "+tag+")")
+			}
+			for _, cg := range f.Comments {
+				if cg.Pos() >= f.Package {
+					break
+				}
+				for _, c := range cg.List {
+					if constraint.IsGoBuild(c.Text) || constraint.IsPlusBuild(c.Text) {
+						if x, err := constraint.Parse(c.Text); err == nil && onlyGoVersionTags(x) {
+							continue // language-version constraints are judged above
+						}
+						if rel, err := filepath.Rel(p.RepoDir, name); err == nil {
+							name = rel
+						}
+						constrained = append(constrained, name+" ("+strings.TrimSpace(c.Text)+")")
+					}
+				}
+			}
+		}
+		for _, name := range root.IgnoredFiles {
+			if !strings.HasSuffix(name, ".go") || strings.HasSuffix(name, "_test.go") {
+				continue
+			}
+			if importOnlyFile(name) {
+				continue
+			}
+			if rel, err := filepath.Rel(p.RepoDir, name); err == nil {
+				name = rel
+			}
+			ignored = append(ignored, name)
+		}
+	}
+	sort.Strings(constrained)
+	sort.Strings(ignored)
+	r.Check(len(constrained) == 0 && len(ignored) == 0, "LANGVER:"+clause+":build-constraints", "every hand-written file of the module is part of every build: no build constraint selects between alternatives, no file with code is excluded under the default configuration", "x/*, app/*, types/*, cmd/*",
+		"no build-constrained or ignored source file", fmt.Sprintf("build-constrained files: %v; files excluded from the default build: %v — the code that runs depends on the build configuration, and what is excluded here is neither analysed nor tested", constrained, ignored))
+}
+
+func onlyGoVersionTags(x constraint.Expr) bool {
+	ok := true
+	var walk func(e constraint.Expr)
+	walk = func(e constraint.Expr) {
+		switch t := e.(type) {
+		case *constraint.TagExpr:
+			if !strings.HasPrefix(t.Tag, "go1.") {
+				ok = false
+			}
+		case *constraint.NotExpr:
+			walk(t.X)
+		case *constraint.AndExpr:
+			walk(t.X)
+			walk(t.Y)
+		case *constraint.OrExpr:
+			walk(t.X)
+			walk(t.Y)
+		}
+	}
+	walk(x)
+	return ok
+}
+
+// importOnlyFile: the file declares nothing but imports (tools.go convention).
+func importOnlyFile(name string) bool {
+	f, err := parser.ParseFile(token.NewFileSet(), name, nil, parser.ImportsOnly|parser.ParseComments)
+	if err != nil {
+		return false
+	}
+	full, err := parser.ParseFile(token.NewFileSet(), name, nil, 0)
+	if err != nil {
+		return false
+	}
+	return len(full.Decls) == len(f.Decls)
+}
+
+var knownGOOS = []string{"aix", "android", "darwin", "dragonfly", "freebsd", "hurd", "illumos", "ios", "js", "linux", "nacl", "netbsd", "openbsd", "plan9", "solaris", "wasip1", "windows", "zos", "unix"}
+var knownGOARCH = []string{"386", "amd64", "arm", "arm64", "loong64", "mips", "mipsle", "mips64", "mips64le", "ppc64", "ppc64le", "riscv64", "s390x", "wasm"}
+
+// fileNameConstraint: name_GOOS.go, name_GOARCH.go, name_GOOS_GOARCH.go are implicit build constraints.
+func fileNameConstraint(path string) string {
+	base := strings.TrimSuffix(filepath.Base(path), ".go")
+	parts := strings.Split(base, "_")
+	if len(parts) < 2 {
+		return ""
+	}
+	last := parts[len(parts)-1]
+	for _, a := range knownGOARCH {
+		if last == a {
+			return "GOARCH=" + a
+		}
+	}
+	for _, o := range knownGOOS {
+		if last == o && o != "unix" {
+			return "GOOS=" + o
+		}
+	}
+	return ""
 }
